@@ -24,6 +24,9 @@ type btr struct {
 	alias   map[string]ast.Expr // `line := vt.activeScreen[row]` → the row expression
 	pmName  string              // name of the [][]int parameter, "" if none
 	brkable []string            // innermost breakable statement: "for" | "switch"
+	bools   map[string]bool     // bool locals (held as 0/1)
+	seqName string              // name of the ansi.Print parameter of print(), "" otherwise
+	glyph   string              // local holding the glyph cell of print()
 	unknown int
 }
 
@@ -90,6 +93,9 @@ func (t *btr) expr(e ast.Expr) (string, bool) {
 	case *ast.SelectorExpr:
 		if l, ok := t.loc(x); ok {
 			return "(.loc " + l + ")", true
+		}
+		if t.seqName != "" && t.src(x) == t.seqName+".Width" {
+			return fmt.Sprintf("(.loc (.var %d))", t.locals[t.seqName+".Width"]), true
 		}
 		return "", false
 	case *ast.BinaryExpr:
@@ -170,6 +176,11 @@ func (t *btr) cond(e ast.Expr) (string, bool) {
 			}
 		}
 		return "", false
+	case *ast.Ident:
+		if t.bools[x.Name] && t.loopIndex(x.Name) < 0 {
+			return fmt.Sprintf("(.cmp .ne (.loc (.var %d)) (.lit 0))", t.locals[x.Name]), true
+		}
+		return "", false
 	case *ast.SelectorExpr:
 		s := t.src(x)
 		if s == "vt.lastCol" {
@@ -225,8 +236,52 @@ func seq(parts []string) string {
 
 func (t *btr) block(list []ast.Stmt) string {
 	var parts []string
-	for _, s := range list {
+	before := map[string]bool{}
+	for k := range t.alias {
+		before[k] = true
+	}
+	created := map[string]int{} // alias → index of the statement that created it
+	for i, s := range list {
 		parts = append(parts, t.stmt(s))
+		for k := range t.alias {
+			if _, seen := created[k]; !before[k] && !seen {
+				created[k] = i
+			}
+		}
+	}
+	// a row alias is sound while the locals of its row expression keep their value: nothing in the
+	// rest of this block may assign to them; the alias ends with the block
+	for k, at := range created {
+		names := map[string]bool{}
+		ast.Inspect(t.alias[k], func(n ast.Node) bool {
+			if id, ok := n.(*ast.Ident); ok {
+				names[id.Name] = true
+			}
+			return true
+		})
+		bad := strings.Contains(t.src(t.alias[k]), "vt.")
+		for _, s := range list[at+1:] {
+			ast.Inspect(s, func(n ast.Node) bool {
+				switch a := n.(type) {
+				case *ast.AssignStmt:
+					for _, l := range a.Lhs {
+						if id, ok := l.(*ast.Ident); ok && names[id.Name] {
+							bad = true
+						}
+					}
+				case *ast.IncDecStmt:
+					if id, ok := a.X.(*ast.Ident); ok && names[id.Name] {
+						bad = true
+					}
+				}
+				return true
+			})
+		}
+		delete(t.alias, k)
+		if bad {
+			t.unknown++
+			return "(.unknown " + ex.LeanStr("row alias "+k+" outlives its row expression") + ")"
+		}
 	}
 	return seq(parts)
 }
@@ -374,9 +429,19 @@ func (t *btr) rangeStmt(s *ast.RangeStmt) string {
 	return "(.forUp (.lit 0) (.lt .height)\n " + body + ")"
 }
 
+var primTexts = map[string]string{
+	"if len(seq.Grapheme) == 1 && vt.charsets.designations[vt.charsets.selected] == decSpecialAndLineDrawing { shifted, ok := decSpecial[seq.Grapheme[0]] if ok { seq.Grapheme = string(shifted) } }": "(.prim .decSpecial)",
+	"if vt.charsets.singleShift { vt.charsets.selected = vt.charsets.saved }":                                                                                                                  "(.prim .singleShift)",
+}
+
 func (t *btr) ifStmt(s *ast.IfStmt) string {
 	if s.Init != nil {
 		return t.unk(s)
+	}
+	if t.seqName == "seq" && len(t.loops) == 0 {
+		if p, ok := primTexts[t.src(s)]; ok {
+			return p
+		}
 	}
 	c, ok := t.cond(s.Cond)
 	if !ok {
@@ -493,9 +558,58 @@ func (t *btr) assign(s *ast.AssignStmt) string {
 			}
 		}
 	}
+	// bool locals hold 0/1
+	if s.Tok == token.ASSIGN {
+		if id, ok := lhs.(*ast.Ident); ok && t.bools[id.Name] && t.loopIndex(id.Name) < 0 {
+			switch t.src(rhs) {
+			case "true":
+				return fmt.Sprintf("(.assign (.var %d) (.lit 1))", t.locals[id.Name])
+			case "false":
+				return fmt.Sprintf("(.assign (.var %d) (.lit 0))", t.locals[id.Name])
+			}
+			return t.unk(s)
+		}
+	}
+	// the glyph cell of print(): cell := cell{Cell: vaxis.Cell{Character: {seq.Grapheme, seq.Width}, Style: vt.cursor.Style}}
+	if s.Tok == token.DEFINE && t.seqName != "" && t.glyph == "" {
+		if id, ok := lhs.(*ast.Ident); ok {
+			want := "cell{ Cell: vaxis.Cell{ Character: vaxis.Character{ Grapheme: " + t.seqName + ".Grapheme, Width: " + t.seqName + ".Width, }, Style: vt.cursor.Style, }, }"
+			if t.src(rhs) == want {
+				if _, isLocal := t.locals[id.Name]; !isLocal && t.loopIndex(id.Name) < 0 {
+					t.glyph = id.Name
+					return ".skip"
+				}
+			}
+		}
+	}
+	// fields of a cell
+	if s.Tok == token.ASSIGN {
+		if sel, ok := lhs.(*ast.SelectorExpr); ok {
+			full := t.src(sel)
+			for _, fld := range []struct{ suffix, rhs, ctor string }{
+				{".wrapped", "true", ".setWrapped"},
+				{".Character.Grapheme", "\" \"", ".setSpace"},
+				{".Style", "vt.cursor.Style", ".setPen"},
+			} {
+				if strings.HasSuffix(full, fld.suffix) && t.src(rhs) == fld.rhs {
+					// strip the field path to get the cell place
+					var base ast.Expr = sel
+					for n := strings.Count(fld.suffix, "."); n > 0; n-- {
+						base = base.(*ast.SelectorExpr).X
+					}
+					if r, c, ok := t.cellPlace(base); ok {
+						return fmt.Sprintf("(%s %s %s)", fld.ctor, r, c)
+					}
+				}
+			}
+		}
+	}
 	// cell statements
 	if s.Tok == token.ASSIGN {
 		if r, c, ok := t.cellPlace(lhs); ok {
+			if id, ok := rhs.(*ast.Ident); ok && t.glyph != "" && id.Name == t.glyph {
+				return fmt.Sprintf("(.putGlyph %s %s (.loc (.var %d)))", r, c, t.locals[t.seqName+".Width"])
+			}
 			if r2, c2, ok := t.cellPlace(rhs); ok {
 				return fmt.Sprintf("(.cellCopy %s %s %s %s)", r, c, r2, c2)
 			}
@@ -563,13 +677,16 @@ func (t *btr) stmt(s ast.Stmt) string {
 		for _, sp := range gd.Specs {
 			vs := sp.(*ast.ValueSpec)
 			ty := t.src(vs.Type)
-			if len(vs.Values) != 0 || (ty != "row" && ty != "column" && ty != "int") {
+			if len(vs.Values) != 0 || (ty != "row" && ty != "column" && ty != "int" && ty != "bool") {
 				return t.unk(s)
 			}
 			for _, n := range vs.Names {
 				k, ok := t.declare(n.Name)
 				if !ok {
 					return t.unk(s)
+				}
+				if ty == "bool" {
+					t.bools[n.Name] = true
 				}
 				parts = append(parts, fmt.Sprintf("(.assign (.var %d) (.lit 0))", k))
 			}
@@ -649,46 +766,6 @@ func (t *btr) stmt(s ast.Stmt) string {
 	return t.unk(s)
 }
 
-// after translation: a row alias is only sound if the locals its row expression mentions are never
-// assigned after the alias was taken. Conservative: they must be assigned exactly once (their
-// declaration) in the whole function.
-func (t *btr) aliasSound(fd ast.Node) bool {
-	for _, rowE := range t.alias {
-		names := map[string]bool{}
-		ast.Inspect(rowE, func(n ast.Node) bool {
-			if id, ok := n.(*ast.Ident); ok {
-				names[id.Name] = true
-			}
-			return true
-		})
-		if strings.Contains(t.src(rowE), "vt.") {
-			return false
-		}
-		count := map[string]int{}
-		ast.Inspect(fd, func(n ast.Node) bool {
-			switch a := n.(type) {
-			case *ast.AssignStmt:
-				for _, l := range a.Lhs {
-					if id, ok := l.(*ast.Ident); ok && names[id.Name] {
-						count[id.Name]++
-					}
-				}
-			case *ast.IncDecStmt:
-				if id, ok := a.X.(*ast.Ident); ok && names[id.Name] {
-					count[id.Name] += 2
-				}
-			}
-			return true
-		})
-		for n := range names {
-			if _, isLocal := t.locals[n]; isLocal && count[n] != 1 {
-				return false
-			}
-		}
-	}
-	return true
-}
-
 var modeFieldNames = map[string]bool{}
 
 type bodySpec struct {
@@ -696,7 +773,7 @@ type bodySpec struct {
 }
 
 func newTr(c *ex.Ctx) *btr {
-	return &btr{c: c, locals: map[string]int{}, alias: map[string]ast.Expr{}}
+	return &btr{c: c, locals: map[string]int{}, alias: map[string]ast.Expr{}, bools: map[string]bool{}}
 }
 
 func (t *btr) params(fl *ast.FieldList) bool {
@@ -709,6 +786,14 @@ func (t *btr) params(fl *ast.FieldList) bool {
 			switch ty {
 			case "int", "row", "column":
 				if _, ok := t.declare(n.Name); !ok {
+					return false
+				}
+			case "ansi.Print":
+				if t.seqName != "" {
+					return false
+				}
+				t.seqName = n.Name
+				if _, ok := t.declare(n.Name + ".Width"); !ok {
 					return false
 				}
 			case "[][]int":
@@ -790,9 +875,6 @@ func genBodies(c *ex.Ctx) {
 			body = t.unk(fd.Body)
 		} else {
 			body = t.block(fd.Body.List)
-			if !t.aliasSound(fd.Body) {
-				body = t.unk(fd.Body)
-			}
 		}
 		emit(sp.fn, t, body)
 	}
